@@ -112,6 +112,7 @@ def declare(rep):
     rep.rule("R04.2", "a method that only borrows an OccupiedEntry leaves the node holding a value")
     rep.rule("R04.3", "every slot pushed on the free list holds no value at that point")
     rep.rule("R04.4", "len/is_empty read only the counter; sets delegate; all counter writers are analysed")
+    rep.rule("R04.6", "(shared with C19) Clone derived over all fields, or clone/clone_from take table, free list and counter from the source")
     rep.rule("R04.5", "no exported signature returns &mut Option<T>, &mut Node, &mut Vec<Node> or &mut Table")
 
 
@@ -224,6 +225,9 @@ def run_config(ctx, rep, cfg, F):
                 else:
                     rep.bad("R04.4", short, "reads other state", "%s does not (only) read the entry counter: result %s, "
                             "touches %s" % (short, r, touches[:3]), config=cfg)
+        # ---- R04.6 clone / clone_from keep counter and arena together (rule of C19, shared)
+        from . import c19
+        c19.check_clone(ctx, rep, cfg, F, rule="R04.6")
         # ---- R04.5 / R01.5
         leaks = 0
         for f in F.lib_fns():
